@@ -49,17 +49,12 @@ def arrayLengthTail (tmp : Int) (rem : Int) (off : Int) (len : Int) (maxArr : In
     let off_v1 : Int := len
     ((-1), eInsuf, off_v1)
   else
-    if (tmp > maxArr) then
+    if ((tmp > maxArr) ∨ (tmp < (-1))) then
       ((-1), eInvArr, off)
     else
       (tmp, nilErr, off)
 
-/-- generated from real_decoder.go (*realDecoder).getCompactArrayLength (fragment starting at `if n == 0`) -/
-def compactArrayLengthTail (n : Int) (nilErr : Int) : Int × Int :=
-  if (n = 0) then
-    (0, nilErr)
-  else
-    ((Go.sub64 n 1), nilErr)
+-- fun compactArrayLengthTail: NOT TRANSLATED: call rd.remaining() is not declared in vars
 
 /-- generated from real_decoder.go (*realDecoder).getBool (fragment starting at `if err != nil || b == 0`) -/
 def getBoolTail (b : Int) (err : Int) (nilErr : Int) (eBool : Int) : Bool × Int :=
@@ -125,12 +120,7 @@ def lengthFieldCheck (cur : Int) (start : Int) (length : Int) (eLF : Int) (nilEr
   else
     nilErr
 
-/-- generated from length_field.go (*varintLengthField).check -/
-def varintLengthFieldCheck (cur : Int) (start : Int) (length : Int) (reserve : Int) (eLF : Int) (nilErr : Int) : Int :=
-  if ((Go.sub64 (Go.sub64 cur start) reserve) ≠ length) then
-    eLF
-  else
-    nilErr
+-- fun varintLengthFieldCheck: NOT TRANSLATED: multi-assignment _, fieldSize := binary.Varint(buf[l.startOffset:])
 
 /-- generated from encoder_decoder.go decode (fragment starting at `if helper.off != len(buf)`) -/
 def decodeTrailing (off : Int) (len : Int) (eLen : Int) (nilErr : Int) : Int :=
